@@ -40,6 +40,31 @@ def token_collisions(args):
         w.close()
 
 
+def zombie(args):
+    """A connected client dies; byte-identical copies of its last datagram keep arriving (a replayer, or the network): the silence time-out
+    must still report the disconnect (copies prove nothing), and a reconnect from that address must then be possible."""
+    seed, every = args
+    import srvworld as SW
+    w = SW.ServerWorld(seed=seed, conn_timeout=2.0)
+    try:
+        w.add_client(1, ("10.5.0.1", 7001))
+        w.add_client(2, ("10.5.0.2", 7002))
+        for t in range(60):
+            w.tick()
+        c = w.clients[1]
+        c["cut"] = True
+        c["deaf"] = True
+        last = w.seen_from[c["addr"]][-1]
+        for t in range(60 * 7):
+            if t % every == every - 1:
+                w.inject(last, c["addr"], kind="replay")
+            w.tick()
+        w.shutdown()
+        return w.ev
+    finally:
+        w.close()
+
+
 def run(ctx):
     ctx.level = "model_checking"
     ctx.rule = ("events of recorded executions of the real server loop judged by TLC against Trace_Server; distinct = handler events + datagrams in/out; "
@@ -58,6 +83,10 @@ def run(ctx):
         dict(name="forty-clients", n=1 if q else 6, nticks=1200 if q else 3000, kw=dict(nclients=40, p_raise=0.01, p_connect=0.01, p_send=0.05)),
     ] + [dict(name="shutdown-at-%d" % t, n=1, nticks=t + 1, kw=dict(nclients=6, p_connect=0.08, stop_at=t)) for t in ((40, 90, 200, 333) if q else range(20, 620, 15))])
     from concurrent.futures import ProcessPoolExecutor
+    zj = [(ctx.seed + e, e) for e in ((20, 60, 100) if q else range(10, 115, 7))]
+    with ProcessPoolExecutor(min(8, len(zj))) as ex:
+        ztr = list(ex.map(zombie, zj))
+    SJ.judge_and_report(ctx, "C10", ztr, ["zombie kept alive by a copy every %d ticks" % j[1] for j in zj])
     jobs = [(ctx.seed + i, 700 if q else 2500) for i in range(3 if q else 16)]
     with ProcessPoolExecutor(min(8, len(jobs))) as ex:
         traces = list(ex.map(token_collisions, jobs))
